@@ -178,11 +178,19 @@ def run_case(case: dict) -> dict:
     if case.get("devices") and case["params"].get("ir_version", 10) >= 11:
         try:
             cfg = model.add_device_configuration("cfg0", num_devices=2)
-            for n in list(model.graph)[:3]:
+            cfg2 = model.add_device_configuration("cfg1", num_devices=3)
+            for i, n in enumerate(list(model.graph)[:4]):
                 tgt = n.outputs[0]
                 if tgt.shape is not None and len(tgt.shape) > 0:
                     n.shard(tgt, configuration=cfg, axis=0, num_shards=2)
                     inc("device_annotations")
+                    # several configurations per node, in both orders, with and without sharding specs
+                    if i % 3 == 0:
+                        n.set_pipeline_stage(cfg2, 1)
+                    elif i % 3 == 1:
+                        n.shard(tgt, configuration=cfg2, axis=-1, num_shards=3)
+                elif i % 2:
+                    n.set_pipeline_stage(cfg2, 0)
         except Exception:  # noqa: BLE001
             pass
     if case.get("nested_types"):
